@@ -28,4 +28,160 @@ example : windowExp (fun x => x * x) (fun x y => x * y) (fun i => 3 ^ (2 * i + 1
     = 3 ^ 181 := by decide +kernel
 example : (sizeinbase2 [181, 1], win_size 65) = (65, 3) := by decide
 
+
+/-- powm.c:118-151, the early `b^1 mod m` path (the path of the defect fixed by a1bb758): for every base
+    and modulus in normal form, every sign of the base, `bn ≥ n` or `bn < n`, the result `{rp, rn}` is well
+    formed (no zero top limb — with the old `rn -= (rp[rn-1] == 0)` this is false) and equals `(±b) mod m`. -/
+theorem powmE1_spec (bneg : Bool) (bp mp : List Nat) (hb : Norm bp) (hbne : bp ≠ []) (hm : Norm mp)
+    (hmne : mp ≠ []) :
+    (Res.mk (powmE1 bneg bp mp).1 (powmE1 bneg bp mp).2).wf = true ∧
+    ((val ((powmE1 bneg bp mp).1.take (powmE1 bneg bp mp).2) : Nat) : Int)
+      = (if bneg then -(val bp : Int) else (val bp : Int)) % (val mp : Int) :=
+  powmE1_correct bneg bp mp hb hbne hm hmne
+
+-- non-vacuity: the witness of the fixed defect, m = 2^128 (3 limbs), b = -(2^128 - 1) (2 limbs): size 1, value 1
+example : powmE1 true [B - 1, B - 1] [0, 0, 1] = ([1, 0, 0], 1) := by decide +kernel
+
+/-- Result well-formedness of mpz_powm on **every** path (m = 0, e = 0, negative e, b = 0, the early
+    b^1 path, odd and even moduli, negative-base fix-up): `SIZ(r) = 0` or the top limb `PTR(r)[SIZ(r)-1]`
+    is non-zero.  For all `b`, `e`, `m`. -/
+theorem mpz_powm_wf (b e m : Int) : (mpz_powm b e m).wf = true := by
+  have hgo : ∀ ep bneg bp, Norm bp → m.natAbs ≠ 0 → (powmGo ep (natLimbs m.natAbs) bneg bp).wf = true := by
+    intro ep bneg bp hbp hm0
+    unfold powmGo
+    by_cases hb0 : bp.length = 0
+    · simp [hb0, Res.wf]
+    · simp only [hb0, if_false]
+      split_ifs
+      · have hbne : bp ≠ [] := fun h => hb0 (by rw [h]; rfl)
+        have hmne : natLimbs m.natAbs ≠ [] := fun h => hm0 ((natLimbs_eq_nil _).mp h)
+        exact (powmE1_correct bneg bp _ hbp hbne (Norm_natLimbs _) hmne).1
+      · exact powmMain_wf _ _ _ _
+  unfold mpz_powm
+  simp only
+  by_cases hn : (natLimbs m.natAbs).length = 0
+  · simp [hn, Res.wf]
+  · have hm0 : m.natAbs ≠ 0 := fun h => hn ((natLimbs_length_eq_zero _).mpr h)
+    simp only [hn, if_false]
+    by_cases he : e = 0
+    · simp only [he, if_true]
+      split_ifs <;> simp [Res.wf]
+    · simp only [he, if_false]
+      by_cases hneg : e < 0
+      · simp only [hneg, if_true]
+        cases mpz_invert b m with
+        | none => rfl
+        | some nb => exact hgo _ _ _ (Norm_natLimbs _) hm0
+      · simp only [hneg, if_false]
+        exact hgo _ _ _ (Norm_natLimbs _) hm0
+
+-- non-vacuity: results with high zero limbs before normalisation
+example : (mpz_powm (-(2 ^ 128 - 1)) 1 (2 ^ 128)) = .mk [1, 0, 0] 1 := by decide +kernel
+example : (mpz_powm 3 5 7).limbs = [5] := by decide +kernel
+
+/-- `mpz_powm` agrees with the specification, and is well formed, on the paths that do not call
+    mpn_powm: `m = 0` (exception), `e = 0` (`1 mod m`, 0 for `m = ±1`), `e = 1` and `e = -1` (the early
+    path, after `mpz_invert` for `-1`; exception if not invertible), `b = 0`.
+    All signs of `b` and `m`, all sizes. -/
+theorem mpz_powm_small_paths_spec (b e m : Int) (h : m = 0 ∨ e = 0 ∨ e = 1 ∨ e = -1 ∨ (b = 0 ∧ 0 ≤ e)) :
+    (mpz_powm b e m).value? = powmSpec b e m ∧ (mpz_powm b e m).wf = true := by
+  refine ⟨?_, mpz_powm_wf b e m⟩
+  -- the early path as a function of (b, m)
+  have hE1 : ∀ (x : Int), m ≠ 0 → (powmGo [1] (natLimbs m.natAbs) (decide (x < 0)) (natLimbs x.natAbs)).value?
+      = some (x % (m.natAbs : Int)) := by
+    intro x hm0
+    have hmn : m.natAbs ≠ 0 := Int.natAbs_ne_zero.mpr hm0
+    unfold powmGo
+    by_cases hx : x = 0
+    · subst hx; simp [natLimbs_zero, Res.value?]
+    · have hxn : x.natAbs ≠ 0 := Int.natAbs_ne_zero.mpr hx
+      have hbne : natLimbs x.natAbs ≠ [] := fun h => hxn ((natLimbs_eq_nil _).mp h)
+      have hmne : natLimbs m.natAbs ≠ [] := fun h => hmn ((natLimbs_eq_nil _).mp h)
+      have hl : (natLimbs x.natAbs).length ≠ 0 := fun h => hbne (List.length_eq_zero_iff.mp h)
+      simp only [hl, if_false, List.length_singleton, List.headD_cons, decide_true, Bool.and_self, if_true]
+      have hc := (powmE1_correct (decide (x < 0)) _ _ (Norm_natLimbs x.natAbs) hbne (Norm_natLimbs m.natAbs) hmne).2
+      unfold Res.value?
+      simp only [Option.some.injEq]
+      rw [hc, val_natLimbs, val_natLimbs]
+      by_cases hneg : x < 0
+      · simp only [hneg, decide_true, if_true]
+        congr 1; omega
+      · simp only [hneg, decide_false, Bool.false_eq_true, if_false]
+        congr 1; omega
+  -- e = 0
+  have hE0 : m.natAbs ≠ 0 → (Res.mk [1] (if ((natLimbs m.natAbs).length != 1 || (natLimbs m.natAbs).headD 0 != 1) = true then 1 else 0)).value?
+      = some (1 % (m.natAbs : Int)) := by
+    intro hmn
+    by_cases h1 : m.natAbs = 1
+    · have hc := (natLimbs_is_one m.natAbs).not.mpr (by simpa using h1)
+      simp only [Bool.not_eq_true] at hc
+      simp only [hc, Bool.false_eq_true, if_false, Res.value?, List.take_zero, val_nil]
+      rw [h1]; rfl
+    · have hc := (natLimbs_is_one m.natAbs).mpr h1
+      have h2 : (1 : Int) % (m.natAbs : Int) = 1 := Int.emod_eq_of_lt (by omega) (by omega)
+      simp only [hc, if_true, Res.value?, h2]
+      rfl
+  unfold mpz_powm powmSpec
+  simp only
+  by_cases hm0 : m = 0
+  · subst hm0; simp [natLimbs_zero, Res.value?]
+  · have hmn : m.natAbs ≠ 0 := Int.natAbs_ne_zero.mpr hm0
+    have hn : (natLimbs m.natAbs).length ≠ 0 := fun h => hmn ((natLimbs_length_eq_zero _).mp h)
+    simp only [hn, hm0, if_false]
+    rcases h with h | h | h | h | h
+    · exact absurd h hm0
+    · -- e = 0
+      subst h
+      simp only [if_true, le_refl, Int.toNat_zero, pow_zero]
+      exact hE0 hmn
+    · -- e = 1
+      subst h
+      have e1 : natLimbs (1 : Int).natAbs = [1] := by
+        have : (1 : Int).natAbs = 1 := rfl
+        rw [this, natLimbs_pos 1 (by decide)]
+        have : (1 : Nat) / B = 0 := by simp [B_eq]
+        rw [this, natLimbs_zero]; simp [B_eq]
+      simp only [show (1 : Int) ≠ 0 by decide, show ¬ (1 : Int) < 0 by decide, if_false, e1,
+        show (0 : Int) ≤ 1 by decide, if_true]
+      rw [hE1 b hm0]; simp
+    · -- e = -1
+      subst h
+      have e1 : natLimbs (-1 : Int).natAbs = [1] := by
+        have : (-1 : Int).natAbs = 1 := rfl
+        rw [this, natLimbs_pos 1 (by decide)]
+        have : (1 : Nat) / B = 0 := by simp [B_eq]
+        rw [this, natLimbs_zero]; simp [B_eq]
+      simp only [show (-1 : Int) ≠ 0 by decide, show (-1 : Int) < 0 by decide, if_false, if_true, e1,
+        show ¬ (0 : Int) ≤ -1 by decide]
+      unfold mpz_invert
+      by_cases h1 : m.natAbs = 1
+      · simp [h1, Res.value?]
+      · by_cases hb0 : b = 0
+        · subst hb0; simp [h1, modInv_zero _ h1, Res.value?]
+        · simp only [hb0, h1, decide_false, Bool.or_self, Bool.false_eq_true, if_false]
+          cases hinv : modInv? b m.natAbs with
+          | none => rfl
+          | some i =>
+            simp only
+            have := hE1 (i : Int) hm0
+            simp only [Int.natAbs_natCast, show ¬ ((i : Int) < 0) by omega, decide_false] at this
+            rw [this]; simp
+    · -- b = 0, e ≥ 0
+      obtain ⟨hb, he⟩ := h
+      subst hb
+      by_cases he0 : e = 0
+      · subst he0
+        simp only [if_true, le_refl, Int.toNat_zero, pow_zero]
+        exact hE0 hmn
+      · have hpos : 0 < e.toNat := by omega
+        simp only [he0, if_false, show ¬ e < 0 by omega, he, if_true, Int.natAbs_zero, natLimbs_zero]
+        unfold powmGo
+        simp [Res.value?, zero_pow (Nat.ne_of_gt hpos)]
+
+-- non-vacuity: each listed path with concrete values
+example : powmSpec 3 0 (-1) = some 0 ∧ powmSpec 3 (-1) 7 = some 5 ∧ powmSpec 3 (-5) 6 = none ∧
+    powmSpec (-3) 5 (-8) = some 5 ∧ powmSpec 5 3 0 = none := by decide +kernel
+example : (mpz_powm 3 (-1) 7).value? = some 5 ∧ (mpz_powm 2 (-1) 6) = .div0 ∧ (mpz_powm (-10) 1 7).value? = some 4 := by
+  decide +kernel
+
 end Mpir.Powm
